@@ -60,6 +60,19 @@ fn spec_read_literal(t: &[u8], out: &mut [u8; 8]) -> Option<(usize, usize)> {
         if c == b'\\' {
             if i + 1 >= t.len() { return None; }
             let e = t[i + 1];
+            if e >= b'0' && e <= b'7' {
+                // \d, \dd, \ddd: one to three octal digits, high-order overflow ignored (Table 3)
+                let mut v: u32 = (e - b'0') as u32;
+                let mut k = i + 2;
+                if k < t.len() && t[k] >= b'0' && t[k] <= b'7' {
+                    v = v * 8 + (t[k] - b'0') as u32; k += 1;
+                    if k < t.len() && t[k] >= b'0' && t[k] <= b'7' { v = v * 8 + (t[k] - b'0') as u32; k += 1; }
+                }
+                if n >= 8 { return None; }
+                out[n] = v as u8; n += 1;
+                i = k;
+                continue;
+            }
             let val = match e { b'n' => 10, b'r' => 13, b't' => 9, b'b' => 8, b'f' => 12, b'(' => b'(', b')' => b')', b'\\' => b'\\', _ => e };
             if n >= 8 { return None; }
             out[n] = val; n += 1;
